@@ -3,7 +3,7 @@
    form (parts well-formed, denominator >= 0, lowest terms, NaN = ±1/0), [oq_eq] is Qeq lifted to option. *)
 From Coq Require Import List NArith ZArith QArith Qround Bool.
 Import ListNotations.
-From HV Require Import Model.Big Model.Rat Model.NumText Proofs.RatBase Proofs.RatSpec Proofs.RatAll Proofs.TextAll.
+From HV Require Import Model.Big Model.Rat Model.NumText Proofs.RatBase Proofs.RatSpec Proofs.RatAll Proofs.TextAll Proofs.RatNew.
 Open Scope Z_scope.
 
 Theorem C06_add : forall a b, wfn a -> wfn b ->
@@ -51,6 +51,22 @@ Theorem C06_reduce : forall u d, wf u -> wf d -> (bval u <> 0 \/ bval d <> 0) ->
   wfn (optimize (mknum u d)) /\ oq_eq (nval (optimize (mknum u d))) (frac (bval u) (bval d)).
 Proof. exact optimize_t. Qed.
 Print Assumptions C06_reduce.
+
+(* Num::new(up: isize, down: usize) with the `down as isize` cast written into the model: canonical for every pair of
+   machine integers, the value up/down exactly for denominators below 2^63 *)
+Theorem C06_new : forall u d, isize_range u -> 0 <= d < 2 ^ 63 -> (u <> 0 \/ d <> 0) ->
+  wfn (nnew u d) /\ oq_eq (nval (nnew u d)) (frac u d).
+Proof. exact nnew_exact. Qed.
+Print Assumptions C06_new.
+Theorem C06_new_any : forall u d, isize_range u -> usize_range d -> (u <> 0 \/ d <> 0) ->
+  wfn (nnew u d) /\ oq_eq (nval (nnew u d)) (frac u (wrap_isize d)).
+Proof. exact nnew_spec. Qed.
+Print Assumptions C06_new_any.
+(* latent, outside the operations the property names: from 2^63 on the constructor never returns up/down *)
+Theorem C06_new_wrapped_latent : forall u d, isize_range u -> 2 ^ 63 <= d < 2 ^ 64 -> u <> 0 ->
+  ~ oq_eq (nval (nnew u d)) (frac u d).
+Proof. exact nnew_wrapped. Qed.
+Print Assumptions C06_new_wrapped_latent.
 
 Theorem C06_from_num : forall n, Z.abs n < 2 ^ 127 -> wfn (from_num n) /\ nval (from_num n) = Some (inject_Z n).
 Proof. exact from_num_t. Qed.
